@@ -124,7 +124,7 @@ def main(argv=None):
                 unknown.append((c, r))
         names = sorted(set(r.name for r in run.results))
         functions.append({
-            "function": "%s::%s" % (c.file, c.qualname), "source_sha256_16": run.sha, "paths": run.paths,
+            "function": "%s::%s%s" % (c.file, c.qualname, ("[%s]" % c.variant) if c.variant else ""), "source_sha256_16": run.sha, "paths": run.paths,
             "completed_paths": run.completed_paths, "obligations": n, "discharged": d, "status": run.status,
             "outcomes": run.outcomes, "distinct_obligations": names, "loop_invariants": sum(len(l.invariant) for l in c.loops.values()),
             "termination_measures": sum(1 for l in c.loops.values() if l.decreases), "wall_s": round(run.wall_s, 2),
@@ -231,7 +231,7 @@ def main(argv=None):
             problems.append(("undecided", "solver returned unknown (z3 and cvc5) for %d obligation instance(s) and the "
                                            "native search found no counterexample: %s" % (len(new_fail), ", ".join(names[:6]))))
     for b, data in new_native:
-        if nviol and spec.get("replay") and b["script"] == spec["replay"]["script"] and b["args"][0] == spec["replay"]["args"][0]:
+        if nviol and spec.get("replay") and b["script"] == spec["replay"]["script"] and b["args"][:1] == spec["replay"]["args"][:1]:
             continue  # same harness already reported above
         payload = {"property": a.prop, "native_cmd": [b["script"]] + [x.replace("{seed}", str(seed)).replace("{tier}", tier) for x in b["args"]],
                    "witness": data.get("witness"), "observed": data.get("what"), "failed_obligations": ["bounded:" + b["name"]]}
